@@ -166,21 +166,4 @@ class Trip(BranchTrip):
         return text, ('fields', out)
 
     def _symbol_filter(self, full):
-        init = self.mod.methods('ppc_mn')['__init__']
-        loop = [n for n in ast.walk(init) if isinstance(n, ast.For) and u(n.iter) == 'full_mnemo' and any('is_symbol' in u(x) for x in ast.walk(n))]
-        if len(loop) != 1:
-            raise AnalysisError('ppc_mn.__init__: the symbol-filter loop over full_mnemo was not found')
-        ev = Evaluator(dict(self.env))
-        ev.env.update({'full_mnemo': list(full), 'mnemo_nosymb': []})
-        body = [st for st in loop[0].body if not (isinstance(st, ast.Expr) and isinstance(st.value, ast.Call) and u(st.value.func) == 'print')]
-        try:
-            for a in full:
-                ev.env[loop[0].target.id] = a
-                try:
-                    ev.exec_stmts(body, ev.env)
-                except Exception as e:
-                    if type(e).__name__ != '_Continue':
-                        raise
-        except NotConst as e:
-            raise AnalysisError('ppc_mn.__init__ symbol filter not evaluable: %s' % e)
-        return list(ev.env['mnemo_nosymb'])
+        return self.symbol_filter(full)
